@@ -10,6 +10,9 @@ TEST_CMD = "cd /repo && /venv/bin/python -m pytest -ra -q -p no:cacheprovider --
 
 # id -> (level, technique, text, note, design_ref)
 CHECKS = {
+ "C19": ("exploration", "TLC enumeration of all programs of spec/Rng.tla with determinism keys + execution in-process (twice, perturbed allocations) and in fresh interpreters under several PYTHONHASHSEED values",
+         "every program up to MaxHist calls over manual_seed and the random-consuming API; outputs with equal seeded keys must be bit-identical across programs, runs and processes",
+         "seeds / hash seeds / allocation layouts are sampled", "5/C19"),
  "C09": ("model_checking", "TLC case machine spec/Saturation.tla (exact saturated-regime semantics on a magnitude lattice) + replay in both dtypes",
          "every lattice element / row / label / target: outputs and input gradients finite and within single precision of the specification",
          "saturated regime only (gaps 0 or >= 20); gaps in (0,20) at large magnitude not decided", "5/C09"),
